@@ -88,42 +88,42 @@ Proof.
   unfold norm_index. replace ((0 <=? p) && (p <? n)) with true by lia. reflexivity.
 Qed.
 
-(* ---------- slices: the +1 makes the stop label inclusive ---------- *)
-Definition slice_ok (st : option Z) (b : option Z) : Prop :=
-  match st, b with Some s, Some _ => 0 <= s | _, _ => True end.
-
+(* ---------- slices: the stop label is inclusive, walking up (+1) and walking down (-1, None below 0) ---------- *)
 Lemma inclusive_slice_positions (pa pb st : option Z) n : 0 <= n ->
-  (forall a, pa = Some a -> 0 <= a < n) -> (forall b, pb = Some b -> 0 <= b < n) -> slice_ok st pb ->
-  (match positions (mk_slice pa (match pb with Some p => Some (p + 1) | None => None end) st) n with
+  (forall a, pa = Some a -> 0 <= a < n) -> (forall b, pb = Some b -> 0 <= b < n) ->
+  (match positions (mk_slice pa (match pb with Some p => incl_stop p st 0 | None => None end) st) n with
    | Some ps => Ok ps | None => Err "ValueError" end) = inclusive_range pa pb st n.
 Proof.
-  intros Hn Ha Hb Hok. unfold positions, slice_indices, inclusive_range. cbn [s_step s_start s_stop].
+  intros Hn Ha Hb. unfold positions, slice_indices, inclusive_range. cbn [s_step s_start s_stop].
   set (step := match st with Some v => v | None => 1 end).
   destruct (step =? 0) eqn:E0; [reflexivity|].
   destruct (step >? 0) eqn:Epos.
-  - assert (Hs : adj_bound pa n step true = match pa with Some a => a | None => 0 end).
+  - assert (Hup : step_up st = true) by (unfold step_up; subst step; destruct st; [exact Epos|reflexivity]).
+    assert (Hs : adj_bound pa n step true = match pa with Some a => a | None => 0 end).
     { unfold adj_bound. destruct pa as [a|]; [|replace (step <? 0) with false by lia; reflexivity].
       specialize (Ha a eq_refl). replace (a <? 0) with false by lia. replace (a >=? n) with false by lia. reflexivity. }
-    assert (He : range_len (adj_bound pa n step true) (adj_bound (match pb with Some p => Some (p + 1) | None => None end) n step false) step
+    assert (He : range_len (adj_bound pa n step true) (adj_bound (match pb with Some p => incl_stop p st 0 | None => None end) n step false) step
                  = range_len (match pa with Some a => a | None => 0 end) (match pb with Some b => b | None => n - 1 end + 1) step).
-    { rewrite Hs. f_equal. unfold adj_bound. destruct pb as [b|]; [|replace (step <? 0) with false by lia; lia].
-      specialize (Hb b eq_refl). replace (b + 1 <? 0) with false by lia. replace (step <? 0) with false by lia.
-      destruct (b + 1 >=? n) eqn:?; lia. }
+    { rewrite Hs. f_equal. unfold incl_stop. rewrite Hup. unfold adj_bound.
+      destruct pb as [b|]; [|replace (step <? 0) with false by lia; lia].
+      specialize (Hb b eq_refl). replace (b + 1 + 0 <? 0) with false by lia. replace (step <? 0) with false by lia.
+      destruct (b + 1 + 0 >=? n) eqn:?; lia. }
     rewrite He, Hs. reflexivity.
-  - (* negative step: only without a stop label *)
-    assert (Hneg : step < 0) by lia.
-    destruct pb as [b|].
-    { exfalso. unfold slice_ok in Hok. subst step. destruct st as [s|]; lia. }
+  - assert (Hneg : step < 0) by lia.
+    assert (Hup : step_up st = false) by (unfold step_up; subst step; destruct st; [exact Epos|discriminate]).
     assert (Hs : adj_bound pa n step true = match pa with Some a => a | None => n - 1 end).
     { unfold adj_bound. destruct pa as [a|]; [|replace (step <? 0) with true by lia; reflexivity].
       specialize (Ha a eq_refl). replace (a <? 0) with false by lia. replace (a >=? n) with false by lia. reflexivity. }
-    rewrite Hs. unfold adj_bound. replace (step <? 0) with true by lia. reflexivity.
+    assert (He : adj_bound (match pb with Some p => incl_stop p st 0 | None => None end) n step false
+                 = match pb with Some b => b | None => 0 end - 1).
+    { unfold incl_stop. rewrite Hup. destruct pb as [b|]; [|unfold adj_bound; replace (step <? 0) with true by lia; lia].
+      specialize (Hb b eq_refl). destruct (b - 1 + 0 <? 0) eqn:E1; unfold adj_bound.
+      - replace (step <? 0) with true by lia. lia.
+      - replace (b - 1 + 0 <? 0) with false by lia. replace (b - 1 + 0 >=? n) with false by lia. lia. }
+    rewrite Hs, He. reflexivity.
 Qed.
 
 (* ---------- LocMap (an index with a dictionary) ---------- *)
-Definition lkey_dom (k : lkey L) : Prop :=
-  match k with LSlice _ b st => slice_ok st (match b with Some _ => Some 0 | None => None end) | _ => True end.
-
 Lemma find_opt_range o labels p : find_opt leqb o labels = Ok (Some p) -> 0 <= p < Z.of_nat (length labels).
 Proof.
   unfold find_opt. destruct o as [x|]; [|discriminate].
@@ -154,10 +154,10 @@ Proof.
 Qed.
 
 (* THE TRANSLATION IS RIGHT: the positional key LocMap produces denotes exactly the positions of the labels *)
-Theorem loc_map_refines (labels : list L) (k : lkey L) : lkey_dom k ->
+Theorem loc_map_refines (labels : list L) (k : lkey L) :
   (ck <- M_loc_map labels k;; ckey_sel ck (Z.of_nat (length labels))) = S_loc labels k.
 Proof.
-  intros Hdom. set (n := Z.of_nat (length labels)). assert (Hn : 0 <= n) by (unfold n; lia).
+  set (n := Z.of_nat (length labels)). assert (Hn : 0 <= n) by (unfold n; lia).
   unfold Select.M_loc_map, Select.S_loc. fold n.
   destruct k as [x|xs|a b st|m|ps|k']; cbn [unpack_key].
   - (* one label *)
@@ -171,7 +171,7 @@ Proof.
                          | Err _ => Err "KeyError"
                          | Ok pa => match find_opt leqb b labels with
                                     | Err _ => Err "KeyError"
-                                    | Ok pb => Ok (CSlice (mk_slice pa (match pb with Some p => Some (p + 1) | None => None end) st))
+                                    | Ok pb => Ok (CSlice (mk_slice pa (match pb with Some p => incl_stop p st 0 | None => None end) st))
                                     end
                          end;; ckey_sel ck n)
                    = (pa <- find_opt leqb a labels;; pb <- find_opt leqb b labels;;
@@ -186,9 +186,7 @@ Proof.
       rewrite <- (inclusive_slice_positions pa pb st n Hn).
       - destruct (positions _ n); reflexivity.
       - intros p ->. exact (find_opt_range _ _ _ Ea).
-      - intros p ->. exact (find_opt_range _ _ _ Eb).
-      - unfold lkey_dom in Hdom. destruct pb as [p|]; [|destruct st; exact I].
-        destruct b as [x|]; [exact Hdom|]. cbn in Eb. discriminate. }
+      - intros p ->. exact (find_opt_range _ _ _ Eb). }
     destruct a as [x|], b as [y|], st as [s|]; try exact Hgen.
     (* the null slice: the whole axis *)
     cbn [res_bind ckey_sel key_positions find_opt]. unfold inclusive_range. cbn [Z.eqb Z.gtb Z.compare].
@@ -312,63 +310,67 @@ Proof.
   rewrite (find_pos_nth (auto_labels n) (auto_labels_NoDup n) z (of_z z) 0 (auto_nth n z Hz)). f_equal.
 Qed.
 
-(* the keys for which the fast path is right: every integer it names IS a label *)
-Definition in_auto (n : nat) (x : L) : Prop := exists z, as_z x = Some z /\ 0 <= z < Z.of_nat n.
-Definition auto_dom (n : nat) (k : lkey L) : Prop :=
+(* the fast path validates: an integer is a label iff it lies in 0..n-1 *)
+Lemma auto_not_in n x : (forall z, as_z x = Some z -> ~ (0 <= z < Z.of_nat n)) -> ~ In x (auto_labels n).
+Proof.
+  intros H Hin. unfold auto_labels in Hin. apply in_map_iff in Hin as (i & <- & Hi). apply in_seq in Hi.
+  apply (H (Z.of_nat i) (as_of _)). lia.
+Qed.
+
+Lemma auto_label_find n x : auto_label as_z (Z.of_nat n) x = find_pos x (auto_labels n) 0.
+Proof.
+  unfold auto_label. destruct (as_z x) as [z|] eqn:Ez.
+  - destruct ((0 <=? z) && (z <? Z.of_nat n)) eqn:Er.
+    + symmetry. apply auto_find; [exact Ez|lia].
+    + symmetry. apply find_pos_None. apply auto_not_in. intros z' Hz'. rewrite Ez in Hz'. injection Hz' as <-. lia.
+  - symmetry. apply find_pos_None. apply auto_not_in. intros z' Hz'. congruence.
+Qed.
+
+(* the one thing the model does not share with the specification: a slice end that is not a number *)
+Definition end_is_int (o : option L) : Prop :=
+  match o with Some x => as_z x <> None | None => True end.
+
+Definition auto_slice_ints (k : lkey L) : Prop :=
   match k with
-  | LLabel x => in_auto n x
-  | LList xs => Forall (in_auto n) xs
-  | LSlice a b st => (match a with Some x => in_auto n x | None => True end) /\
-                     (match b with Some x => in_auto n x | None => True end) /\
-                     slice_ok st (match b with Some _ => Some 0 | None => None end)
+  | LSlice a b _ => end_is_int a /\ end_is_int b
   | _ => True
   end.
 
-Lemma auto_list n xs : Forall (in_auto n) xs ->
-  exists zs, opt_all (map as_z xs) = Some zs /\ opt_all (map (fun x => find_pos x (auto_labels n) 0) xs) = Some zs /\
-             forall p, In p zs -> 0 <= p < Z.of_nat n.
+Lemma auto_end_find n o : end_is_int o ->
+  auto_end as_z (Z.of_nat n) o = find_opt leqb o (auto_labels n).
 Proof.
-  induction 1 as [|x xs (z & Hz & Hr) _ IH]; [exists []; split; [reflexivity|split; [reflexivity|intros p []]]|].
-  destruct IH as (zs & E1 & E2 & E3). exists (z :: zs). cbn [map opt_all].
-  rewrite Hz, E1, (auto_find n x z Hz Hr), E2. split; [reflexivity|]. split; [reflexivity|].
-  intros p [<-|Hp]; [exact Hr|exact (E3 p Hp)].
+  destruct o as [x|]; [|reflexivity]. unfold end_is_int. intros Hx. unfold auto_end, find_opt.
+  pose proof (auto_label_find n x) as H. unfold auto_label in H.
+  destruct (as_z x) as [z|]; [|congruence].
+  destruct ((0 <=? z) && (z <? Z.of_nat n)); rewrite <- H; reflexivity.
 Qed.
 
-Theorem loc_auto_refines (n : nat) (k : lkey L) : auto_dom n k ->
+Theorem loc_auto_refines (n : nat) (k : lkey L) : auto_slice_ints k ->
   (ck <- M_loc_auto leqb as_z (auto_labels n) k;; ckey_sel ck (Z.of_nat n)) = S_loc (auto_labels n) k.
 Proof.
   intros Hdom. unfold Select.M_loc_auto, Select.S_loc. rewrite auto_labels_length.
   assert (Hn : 0 <= Z.of_nat n) by lia.
   destruct k as [x|xs|a b st|m|ps|k']; cbn [unpack_key].
-  - destruct Hdom as (z & Hz & Hr). rewrite Hz, (auto_find n x z Hz Hr). cbn [res_bind ckey_sel].
-    unfold norm_index. replace ((0 <=? z) && (z <? Z.of_nat n)) with true by lia. reflexivity.
-  - destruct (auto_list n xs Hdom) as (zs & E1 & E2 & E3). rewrite E1, E2. cbn [res_bind ckey_sel key_positions].
-    rewrite (norm_in_range zs _ E3). reflexivity.
-  - destruct Hdom as (Ha & Hb & Hok).
-    assert (Hea : exists za, match a with None => Some None | Some x => option_map Some (as_z x) end = Some za /\
-                             find_opt leqb a (auto_labels n) = Ok za /\ forall p, za = Some p -> 0 <= p < Z.of_nat n).
-    { destruct a as [x|]; [|exists None; split; [reflexivity|split; [reflexivity|discriminate]]].
-      destruct Ha as (z & Hz & Hr). exists (Some z). cbn [find_opt]. rewrite Hz, (auto_find n x z Hz Hr).
-      split; [reflexivity|]. split; [reflexivity|]. intros p Hp. injection Hp as <-. exact Hr. }
-    assert (Heb : exists zb, match b with None => Some None | Some x => option_map Some (as_z x) end = Some zb /\
-                             find_opt leqb b (auto_labels n) = Ok zb /\ (forall p, zb = Some p -> 0 <= p < Z.of_nat n) /\
-                             (zb = None <-> b = None)).
-    { destruct b as [x|]; [|exists None; split; [reflexivity|split; [reflexivity|split; [discriminate|split; reflexivity]]]].
-      destruct Hb as (z & Hz & Hr). exists (Some z). cbn [find_opt]. rewrite Hz, (auto_find n x z Hz Hr).
-      split; [reflexivity|]. split; [reflexivity|]. split; [|split; discriminate].
-      intros p Hp. injection Hp as <-. exact Hr. }
-    destruct Hea as (za & Ea1 & Ea2 & Ea3). destruct Heb as (zb & Eb1 & Eb2 & Eb3 & Eb4).
-    rewrite Ea1, Eb1, Ea2, Eb2. cbn [res_bind].
+  - rewrite auto_label_find. destruct (find_pos x (auto_labels n) 0) as [p|] eqn:E; [|reflexivity].
+    cbn [res_bind ckey_sel]. apply find_pos_Some in E. rewrite auto_labels_length in E.
+    unfold norm_index. replace ((0 <=? p) && (p <? Z.of_nat n)) with true by lia. reflexivity.
+  - rewrite (map_ext _ _ (auto_label_find n)).
+    destruct (opt_all _) as [zs|] eqn:E; [|reflexivity]. cbn [res_bind ckey_sel key_positions].
+    rewrite (norm_in_range zs (Z.of_nat n)); [reflexivity|].
+    intros p Hp. pose proof (find_all_range _ _ _ E p Hp) as H. rewrite auto_labels_length in H. exact H.
+  - destruct Hdom as [Ha Hb]. rewrite (auto_end_find n a Ha), (auto_end_find n b Hb).
+    destruct (find_opt leqb a (auto_labels n)) as [za|e] eqn:Ea; cbn [res_bind]; [|reflexivity].
+    destruct (find_opt leqb b (auto_labels n)) as [zb|e] eqn:Eb; cbn [res_bind]; [|reflexivity].
+    assert (Hra : forall p, za = Some p -> 0 <= p < Z.of_nat n).
+    { intros p ->. pose proof (find_opt_range _ _ _ Ea) as H. rewrite auto_labels_length in H. exact H. }
+    assert (Hrb : forall p, zb = Some p -> 0 <= p < Z.of_nat n).
+    { intros p ->. pose proof (find_opt_range _ _ _ Eb) as H. rewrite auto_labels_length in H. exact H. }
     assert (Hgen : ckey_sel (CSlice (incl_typed (mk_slice za zb st) 0)) (Z.of_nat n) =
                    (ps <- inclusive_range za zb st (Z.of_nat n);; Ok (SMany ps))).
     { cbn [ckey_sel key_positions]. unfold incl_typed. cbn [s_start s_stop s_step].
       replace (match za with Some a0 => Some (a0 + 0) | None => None end) with za by (destruct za; [f_equal; lia|reflexivity]).
-      replace (match zb with Some b0 => Some (b0 + 1 + 0) | None => None end)
-        with (match zb with Some p => Some (p + 1) | None => None end) by (destruct zb; [f_equal; lia|reflexivity]).
-      rewrite <- (inclusive_slice_positions za zb st (Z.of_nat n) Hn Ea3 Eb3).
-      - destruct (positions _ _); reflexivity.
-      - destruct zb as [p|]; [|destruct st; exact I]. destruct b as [x|]; [exact Hok|].
-        exfalso. assert (Some p = None) by (apply Eb4; reflexivity). discriminate. }
+      rewrite <- (inclusive_slice_positions za zb st (Z.of_nat n) Hn Hra Hrb).
+      destruct (positions _ _); reflexivity. }
     destruct za as [pa|], zb as [pb|], st as [s|]; try exact Hgen.
     cbn [res_bind ckey_sel key_positions]. unfold inclusive_range. cbn [Z.eqb Z.gtb Z.compare].
     rewrite range_all by exact Hn. reflexivity.
